@@ -15,6 +15,16 @@ def naming(specs, groups, tf, fasta_like=False, cuts=None, ends=None, fr=0, pref
     return FIN(AND(names_ok(outs, ba, prefix or "SUPER_"), partition_ok(inp, outs)))
 
 
+def naming_rest(specs, groups, tf, fasta_like=False, cuts=None, ends=None, fr=0):
+    """everything C10 demands EXCEPT 'unlocs numbered from longest to shortest'"""
+    model_setup(specs, groups, tf, fr, cuts, ends)
+    inp, lay = mk_input(specs, fasta_like)
+    prtxt = mk_pretext(groups, tf, fr)
+    ba, outs = run_pipeline(inp, prtxt)
+    LAST["outs"] = outs
+    return FIN(AND(names_ok(outs, ba, "SUPER_", unloc_length_order=False), partition_ok(inp, outs)))
+
+
 def naming_alt(specs, groups, tf, fasta_like=False, cuts=None, ends=None, fr=0):
     return naming(specs, groups, tf, fasta_like, cuts, ends, fr, prefix="CHR")
 '''
@@ -64,16 +74,28 @@ def conditions(tier):
         out.append(Cond(nm, src_q, fn, to, bound, replay="replay_model", encodes=ENC))
 
     # cut templates: a tagged piece may lose all its rows (mostly over a gap) - names must still have no holes
+    known = {}
     for tag, tg in (("Haplotig", ("Haplotig",)), ("Unloc", U)):
         for ps3 in ((1, 1, 1, 1), (1, -1, 1, 1)):
-            n = f"cut_{tag}_" + sfx((), ps3)
-            t.append((f"two_cuts_middle_piece_{tag}_" + sfx((), ps3),
-                      _m(n, [("in1", "FGF"), ("in2", "F")], ((2, 0), [(0, 0, 0), (0, 0, 1), (0, 0, 2), (0 if tag == "Unloc" else 1, 1, 0)]),
-                         [P, tg, P, tg], ps3), n, 9000,
-                      f"input F G F cut twice into one painted Pretext scaffold whose MIDDLE piece is tagged {tag} (it may lie mostly over the gap and lose all its rows), followed by another {tag} piece; piece strands {ps3}"))
+            plan = ((2, 0), [(0, 0, 0), (0, 0, 1), (0, 0, 2), (0 if tag == "Unloc" else 1, 1, 0)])
+            bound = (f"input F G F cut twice into one painted Pretext scaffold whose MIDDLE piece is tagged {tag} (it may lie mostly over the gap and lose all its rows), "
+                     f"followed by another {tag} piece; piece strands {ps3}")
+            if tag == "Unloc":
+                # known finding C10-unloc-rank-before-cut: the main condition checks everything but the
+                # unloc length order; the full oracle on the same template is expected to fail
+                n = f"cut_{tag}_rest_" + sfx((), ps3)
+                t.append((f"two_cuts_middle_piece_{tag}_all_but_unloc_order_" + sfx((), ps3),
+                          _m(n, [("in1", "FGF"), ("in2", "F")], plan, [P, tg, P, tg], ps3, body="naming_rest"), n, 9000, bound + "; all clauses except the unloc length order"))
+                n = f"cut_{tag}_" + sfx((), ps3)
+                nm = f"two_cuts_middle_piece_{tag}_" + sfx((), ps3)
+                t.append((nm, _m(n, [("in1", "FGF"), ("in2", "F")], plan, [P, tg, P, tg], ps3), n, 9000, bound + "; full oracle incl. unloc length order (KNOWN to fail)"))
+                known[nm] = "known:C10-unloc-rank-before-cut"
+            else:
+                n = f"cut_{tag}_" + sfx((), ps3)
+                t.append((f"two_cuts_middle_piece_{tag}_" + sfx((), ps3), _m(n, [("in1", "FGF"), ("in2", "F")], plan, [P, tg, P, tg], ps3), n, 9000, bound))
     src_t = HEAD + "".join(x[1] for x in t)
     for (nm, _, fn, to, bound) in t:
-        out.append(Cond(nm, src_t, fn, to, bound, tier="thorough", replay="replay_model", encodes=ENC))
+        out.append(Cond(nm, src_t, fn, to, bound, tier="thorough", replay="replay_model", encodes=ENC, expect=known.get(nm, "confirm")))
     return out
 
 
